@@ -120,6 +120,8 @@ class PythonTranslator(ASTTranslator):
     def postLambda(translator, node):
         return 'lambda %s: %s' % (node.args.src, node.body.src)
     def postarguments(translator, node):
+        if node.kwonlyargs or getattr(node, 'posonlyargs', None): throw(NotImplementedError,
+            'Keyword-only and positional-only lambda arguments are not supported')
         if node.defaults:
             nodef_args = node.args[:-len(node.defaults)]
             def_args = node.args[-len(node.defaults):]
